@@ -10,7 +10,7 @@
     reflexivity / lia — insensitive to renamed locals, reordered independent statements, a > b written b < a,
     re-nested conditions. *)
 From Coq Require Import ZArith List Bool Lia.
-From OBI.C20 Require Import Model Proofs Props GenProofs GenMul.
+From OBI.C20 Require Import Model Proofs Props GenTac GenProofs GenShift GenDiv GenMul.
 From OBI.C20.Gen Require Import Translated.
 Import ListNotations.
 Open Scope Z_scope.
@@ -30,9 +30,9 @@ Theorem T_Uint64_Uint256_eq : forall u, T_Uint64_Uint256 u = mk256 0 0 0 u.
 Proof. exact L_Uint64_Uint256_eq. Qed.
 Theorem T_Uint64_Set64_eq : forall u v, T_Uint64_Set64 u v = v.
 Proof. exact L_Uint64_Set64_eq. Qed.
-Theorem T_Uint64_LeftShift64_eq : forall u n c, 0 <= n < W -> T_Uint64_LeftShift64 u n c = leftshift64 u n c.
+Theorem T_Uint64_LeftShift64_eq : forall u n c, inW u -> 0 <= n < W -> T_Uint64_LeftShift64 u n c = leftshift64 u n c.
 Proof. exact L_Uint64_LeftShift64_eq. Qed.
-Theorem T_Uint64_RightShift64_eq : forall u n c, 0 <= n < W -> T_Uint64_RightShift64 u n c = rightshift64 u n c.
+Theorem T_Uint64_RightShift64_eq : forall u n c, inW u -> 0 <= n < W -> T_Uint64_RightShift64 u n c = rightshift64 u n c.
 Proof. exact L_Uint64_RightShift64_eq. Qed.
 Theorem T_Uint64_Add64_eq : forall u v c, T_Uint64_Add64 u v c = add64 u v c.
 Proof. exact L_Uint64_Add64_eq. Qed.
@@ -40,15 +40,15 @@ Theorem T_Uint64_Sub64_eq : forall u v c, T_Uint64_Sub64 u v c = sub64 u v c.
 Proof. exact L_Uint64_Sub64_eq. Qed.
 Theorem T_Uint64_Mul64_eq : forall u v, T_Uint64_Mul64 u v = (snd (mul64 u v), fst (mul64 u v)).
 Proof. exact L_Uint64_Mul64_eq. Qed.
-Theorem T_Uint64_LeftShift_eq : forall u n, 0 <= n < W -> T_Uint64_LeftShift u n = u64_shl u n.
+Theorem T_Uint64_LeftShift_eq : forall u n, inW u -> 0 <= n < W -> T_Uint64_LeftShift u n = u64_shl u n.
 Proof. exact L_Uint64_LeftShift_eq. Qed.
-Theorem T_Uint64_RightShift_eq : forall u n, 0 <= n < W -> T_Uint64_RightShift u n = u64_shr u n.
+Theorem T_Uint64_RightShift_eq : forall u n, inW u -> 0 <= n < W -> T_Uint64_RightShift u n = u64_shr u n.
 Proof. exact L_Uint64_RightShift_eq. Qed.
-Theorem T_Uint64_Add_eq : forall u v, T_Uint64_Add u v = u64_add u v.
+Theorem T_Uint64_Add_eq : forall u v, inW u -> inW v -> T_Uint64_Add u v = u64_add u v.
 Proof. exact L_Uint64_Add_eq. Qed.
-Theorem T_Uint64_Sub_eq : forall u v, T_Uint64_Sub u v = u64_sub u v.
+Theorem T_Uint64_Sub_eq : forall u v, inW u -> inW v -> T_Uint64_Sub u v = u64_sub u v.
 Proof. exact L_Uint64_Sub_eq. Qed.
-Theorem T_Uint64_Mul_eq : forall u v, T_Uint64_Mul u v = u64_mul u v.
+Theorem T_Uint64_Mul_eq : forall u v, inW u -> inW v -> T_Uint64_Mul u v = u64_mul u v.
 Proof. exact L_Uint64_Mul_eq. Qed.
 Theorem T_Uint64_Cmp_eq : forall u v, T_Uint64_Cmp u v = u64_cmp u v.
 Proof. exact L_Uint64_Cmp_eq. Qed.
@@ -86,25 +86,25 @@ Theorem T_Uint128_Uint256_eq : forall u, T_Uint128_Uint256 u = mk256 0 0 (h1 u) 
 Proof. exact L_Uint128_Uint256_eq. Qed.
 Theorem T_Uint128_Set64_eq : forall u v, T_Uint128_Set64 u v = mk128 0 v.
 Proof. exact L_Uint128_Set64_eq. Qed.
-Theorem T_Uint128_LeftShift_eq : forall u n, 0 <= n < W -> T_Uint128_LeftShift u n = u128_shl u n.
+Theorem T_Uint128_LeftShift_eq : forall u n, wf128 u -> 0 <= n < W -> T_Uint128_LeftShift u n = u128_shl u n.
 Proof. exact L_Uint128_LeftShift_eq. Qed.
-Theorem T_Uint128_RightShift_eq : forall u n, 0 <= n < W -> T_Uint128_RightShift u n = u128_shr u n.
+Theorem T_Uint128_RightShift_eq : forall u n, wf128 u -> 0 <= n < W -> T_Uint128_RightShift u n = u128_shr u n.
 Proof. exact L_Uint128_RightShift_eq. Qed.
-Theorem T_Uint128_Add_eq : forall u v, T_Uint128_Add u v = u128_add u v.
+Theorem T_Uint128_Add_eq : forall u v, wf128 u -> wf128 v -> T_Uint128_Add u v = u128_add u v.
 Proof. exact L_Uint128_Add_eq. Qed.
-Theorem T_Uint128_Add64_eq : forall u v, T_Uint128_Add64 u v = u128_add64 u v.
+Theorem T_Uint128_Add64_eq : forall u v, wf128 u -> inW v -> T_Uint128_Add64 u v = u128_add64 u v.
 Proof. exact L_Uint128_Add64_eq. Qed.
-Theorem T_Uint128_Sub_eq : forall u v, T_Uint128_Sub u v = u128_sub u v.
+Theorem T_Uint128_Sub_eq : forall u v, wf128 u -> wf128 v -> T_Uint128_Sub u v = u128_sub u v.
 Proof. exact L_Uint128_Sub_eq. Qed.
-Theorem T_Uint128_Mul_eq : forall u v, T_Uint128_Mul u v = u128_mul u v.
+Theorem T_Uint128_Mul_eq : forall u v, wf128 u -> wf128 v -> T_Uint128_Mul u v = u128_mul u v.
 Proof. exact L_Uint128_Mul_eq. Qed.
-Theorem T_Uint128_Mul64_eq : forall u v, T_Uint128_Mul64 u v = u128_mul64 u v.
+Theorem T_Uint128_Mul64_eq : forall u v, wf128 u -> inW v -> T_Uint128_Mul64 u v = u128_mul64 u v.
 Proof. exact L_Uint128_Mul64_eq. Qed.
-Theorem T_Uint128_QuoRem64_eq : forall u v, T_Uint128_QuoRem64 u v = u128_quorem64 u v.
+Theorem T_Uint128_QuoRem64_eq : forall u v, wf128 u -> inW v -> T_Uint128_QuoRem64 u v = u128_quorem64 u v.
 Proof. exact L_Uint128_QuoRem64_eq. Qed.
 Theorem T_Uint128_Cmp_eq : forall u v, T_Uint128_Cmp u v = u128_cmp u v.
 Proof. exact L_Uint128_Cmp_eq. Qed.
-Theorem T_Uint128_Cmp64_eq : forall u v, T_Uint128_Cmp64 u v = u128_cmp64 u v.
+Theorem T_Uint128_Cmp64_eq : forall u v, wf128 u -> inW v -> T_Uint128_Cmp64 u v = u128_cmp64 u v.
 Proof. exact L_Uint128_Cmp64_eq. Qed.
 Theorem T_Uint128_Equals_eq : forall u v, T_Uint128_Equals u v = (u128_cmp u v =? 0).
 Proof. exact L_Uint128_Equals_eq. Qed.
@@ -140,11 +140,11 @@ Theorem T_Uint256_Uint256_eq : forall u, T_Uint256_Uint256 u = u.
 Proof. exact L_Uint256_Uint256_eq. Qed.
 Theorem T_Uint256_Set64_eq : forall u v, T_Uint256_Set64 u v = mk256 0 0 0 v.
 Proof. exact L_Uint256_Set64_eq. Qed.
-Theorem T_Uint256_Cmp_eq : forall u v, T_Uint256_Cmp u v = u256_cmp u v.
+Theorem T_Uint256_Cmp_eq : forall u v, R_Uint256_Cmp u v = Ok (u256_cmp u v).
 Proof. exact L_Uint256_Cmp_eq. Qed.
-Theorem T_Uint256_Add_eq : forall u v, T_Uint256_Add u v = u256_add u v.
+Theorem T_Uint256_Add_eq : forall u v, wf256 u -> wf256 v -> T_Uint256_Add u v = u256_add u v.
 Proof. exact L_Uint256_Add_eq. Qed.
-Theorem T_Uint256_Sub_eq : forall u v, T_Uint256_Sub u v = u256_sub u v.
+Theorem T_Uint256_Sub_eq : forall u v, wf256 u -> wf256 v -> T_Uint256_Sub u v = u256_sub u v.
 Proof. exact L_Uint256_Sub_eq. Qed.
 Theorem T_Uint256_Equals_eq : forall u v, T_Uint256_Equals u v = (u256_cmp u v =? 0).
 Proof. exact L_Uint256_Equals_eq. Qed.
@@ -172,13 +172,13 @@ Theorem T_Uint128_Div_eq : forall u v, wf128 u -> wf128 v -> T_Uint128_Div u v =
 Proof. exact L_Uint128_Div_eq. Qed.
 Theorem T_Uint128_Mod_eq : forall u v, wf128 u -> wf128 v -> T_Uint128_Mod u v = rmap snd (u128_quorem u v).
 Proof. exact L_Uint128_Mod_eq. Qed.
-Theorem T_Uint128_Div64_eq : forall u v, T_Uint128_Div64 u v = rmap fst (u128_quorem64 u v).
+Theorem T_Uint128_Div64_eq : forall u v, wf128 u -> inW v -> T_Uint128_Div64 u v = rmap fst (u128_quorem64 u v).
 Proof. exact L_Uint128_Div64_eq. Qed.
-Theorem T_Uint128_Mod64_eq : forall u v, T_Uint128_Mod64 u v = rmap snd (u128_quorem64 u v).
+Theorem T_Uint128_Mod64_eq : forall u v, wf128 u -> inW v -> T_Uint128_Mod64 u v = rmap snd (u128_quorem64 u v).
 Proof. exact L_Uint128_Mod64_eq. Qed.
-Theorem T_Uint256_LeftShift_eq : forall u n, 0 <= n < W -> T_Uint256_LeftShift u n = Ok (u256_shl u n).
+Theorem T_Uint256_LeftShift_eq : forall u n, wf256 u -> 0 <= n < W -> T_Uint256_LeftShift u n = Ok (u256_shl u n).
 Proof. exact L_Uint256_LeftShift_eq. Qed.
-Theorem T_Uint256_RightShift_eq : forall u n, 0 <= n < W -> T_Uint256_RightShift u n = Ok (u256_shr u n).
+Theorem T_Uint256_RightShift_eq : forall u n, wf256 u -> 0 <= n < W -> T_Uint256_RightShift u n = Ok (u256_shr u n).
 Proof. exact L_Uint256_RightShift_eq. Qed.
 Theorem T_Uint256_Div_eq : forall u v, wf256 u -> wf256 v -> T_Uint256_Div u v = u256_div u v.
 Proof. exact L_Uint256_Div_eq. Qed.
@@ -208,58 +208,58 @@ Proof. intros. rewrite T_Uint256_RightShift_eq by assumption. eexists; split; [r
 
 Corollary C20T_add64 : forall a b, inW a -> inW b ->
   (a + b < W -> T_Uint64_Add a b = Ok (a + b)) /\ (W <= a + b -> T_Uint64_Add a b = Panic).
-Proof. intros. rewrite T_Uint64_Add_eq. apply C20_add64; assumption. Qed.
+Proof. intros. rewrite T_Uint64_Add_eq by assumption. apply C20_add64; assumption. Qed.
 Corollary C20T_sub64 : forall a b, inW a -> inW b ->
   (b <= a -> T_Uint64_Sub a b = Ok (a - b)) /\ (a < b -> T_Uint64_Sub a b = Panic).
-Proof. intros. rewrite T_Uint64_Sub_eq. apply C20_sub64; assumption. Qed.
+Proof. intros. rewrite T_Uint64_Sub_eq by assumption. apply C20_sub64; assumption. Qed.
 Corollary C20T_mul64 : forall a b, inW a -> inW b ->
   (a * b < W -> T_Uint64_Mul a b = Ok (a * b)) /\ (W <= a * b -> T_Uint64_Mul a b = Panic).
-Proof. intros. rewrite T_Uint64_Mul_eq. apply C20_mul64; assumption. Qed.
+Proof. intros. rewrite T_Uint64_Mul_eq by assumption. apply C20_mul64; assumption. Qed.
 Corollary C20T_add128 : forall u v, wf128 u -> wf128 v ->
   (val128 u + val128 v < W * W ->
      exists r, T_Uint128_Add u v = Ok r /\ wf128 r /\ val128 r = val128 u + val128 v) /\
   (W * W <= val128 u + val128 v -> T_Uint128_Add u v = Panic).
-Proof. intros. rewrite T_Uint128_Add_eq. apply C20_add128; assumption. Qed.
+Proof. intros. rewrite T_Uint128_Add_eq by assumption. apply C20_add128; assumption. Qed.
 Corollary C20T_add128_64 : forall u v, wf128 u -> inW v ->
   (val128 u + v < W * W -> exists r, T_Uint128_Add64 u v = Ok r /\ wf128 r /\ val128 r = val128 u + v) /\
   (W * W <= val128 u + v -> T_Uint128_Add64 u v = Panic).
-Proof. intros. rewrite T_Uint128_Add64_eq. apply C20_add128_64; assumption. Qed.
+Proof. intros. rewrite T_Uint128_Add64_eq by assumption. apply C20_add128_64; assumption. Qed.
 Corollary C20T_sub128 : forall u v, wf128 u -> wf128 v ->
   (val128 v <= val128 u ->
      exists r, T_Uint128_Sub u v = Ok r /\ wf128 r /\ val128 r = val128 u - val128 v) /\
   (val128 u < val128 v -> T_Uint128_Sub u v = Panic).
-Proof. intros. rewrite T_Uint128_Sub_eq. apply C20_sub128; assumption. Qed.
+Proof. intros. rewrite T_Uint128_Sub_eq by assumption. apply C20_sub128; assumption. Qed.
 Theorem C20T_add256 : forall u v, wf256 u -> wf256 v ->
   (val256 u + val256 v < W4 ->
      exists r, T_Uint256_Add u v = Ok r /\ wf256 r /\ val256 r = val256 u + val256 v) /\
   (W4 <= val256 u + val256 v -> T_Uint256_Add u v = Panic).
-Proof. intros. rewrite T_Uint256_Add_eq. apply C20_add256; assumption. Qed.
+Proof. intros. rewrite T_Uint256_Add_eq by assumption. apply C20_add256; assumption. Qed.
 Theorem C20T_sub256 : forall u v, wf256 u -> wf256 v ->
   (val256 v <= val256 u ->
      exists r, T_Uint256_Sub u v = Ok r /\ wf256 r /\ val256 r = val256 u - val256 v) /\
   (val256 u < val256 v -> T_Uint256_Sub u v = Panic).
-Proof. intros. rewrite T_Uint256_Sub_eq. apply C20_sub256; assumption. Qed.
+Proof. intros. rewrite T_Uint256_Sub_eq by assumption. apply C20_sub256; assumption. Qed.
 
 Corollary C20T_mul128_64 : forall u v, wf128 u -> inW v ->
   (val128 u * v < W * W -> exists r, T_Uint128_Mul64 u v = Ok r /\ wf128 r /\ val128 r = val128 u * v) /\
   (W * W <= val128 u * v -> T_Uint128_Mul64 u v = Panic).
-Proof. intros. rewrite T_Uint128_Mul64_eq. apply C20_mul128_64; assumption. Qed.
+Proof. intros. rewrite T_Uint128_Mul64_eq by assumption. apply C20_mul128_64; assumption. Qed.
 (* PARTIAL, as C20_mul128_partial: known finding C20/mul128-high-limbs *)
 Corollary C20T_mul128_partial : forall u v, wf128 u -> wf128 v -> h1 u = 0 \/ h1 v = 0 ->
   (val128 u * val128 v < W * W ->
      exists r, T_Uint128_Mul u v = Ok r /\ wf128 r /\ val128 r = val128 u * val128 v) /\
   (W * W <= val128 u * val128 v -> T_Uint128_Mul u v = Panic).
-Proof. intros. rewrite T_Uint128_Mul_eq. apply C20_mul128_partial; assumption. Qed.
+Proof. intros. rewrite T_Uint128_Mul_eq by assumption. apply C20_mul128_partial; assumption. Qed.
 Corollary C20T_mul128_wraps_only_by_high_product : forall u v, wf128 u -> wf128 v ->
   match T_Uint128_Mul u v with
   | Ok r => wf128 r /\ val128 r = val128 u * val128 v - (h1 u * h1 v) * (W * W)
   | Panic => W * W <= val128 u * val128 v
   | OutOfFuel => False
   end.
-Proof. intros. rewrite T_Uint128_Mul_eq. apply C20_mul128_wraps_only_by_high_product; assumption. Qed.
+Proof. intros. rewrite T_Uint128_Mul_eq by assumption. apply C20_mul128_wraps_only_by_high_product; assumption. Qed.
 Corollary C20T_mul128_refuted :
   exists u v, wf128 u /\ wf128 v /\ W * W <= val128 u * val128 v /\ T_Uint128_Mul u v <> Panic.
-Proof. destruct C20_mul128_refuted as (u & v & H). exists u, v. rewrite T_Uint128_Mul_eq. exact H. Qed.
+Proof. destruct C20_mul128_refuted as (u & v & Hu & Hv & H). exists u, v. rewrite T_Uint128_Mul_eq by assumption. exact (conj Hu (conj Hv H)). Qed.
 
 Theorem C20T_mul256 : forall u v, wf256 u -> wf256 v ->
   (val256 u * val256 v < W4 ->
@@ -272,7 +272,7 @@ Theorem C20T_div256 : forall u v, wf256 u -> wf256 v -> val256 v <> 0 ->
 Proof. intros. rewrite T_Uint256_Div_eq by assumption. apply C20_div256; assumption. Qed.
 Corollary C20T_quorem128_64 : forall u v, wf128 u -> inW v -> v <> 0 ->
   exists q r, T_Uint128_QuoRem64 u v = Ok (q, r) /\ wf128 q /\ val128 q = val128 u / v /\ r = val128 u mod v.
-Proof. intros. rewrite T_Uint128_QuoRem64_eq. apply C20_quorem128_64; assumption. Qed.
+Proof. intros. rewrite T_Uint128_QuoRem64_eq by assumption. apply C20_quorem128_64; assumption. Qed.
 Theorem C20T_quorem128 : forall u v, wf128 u -> wf128 v -> val128 v <> 0 ->
   exists q r, T_Uint128_QuoRem u v = Ok (q, r) /\ wf128 q /\ wf128 r /\
               val128 q = val128 u / val128 v /\ val128 r = val128 u mod val128 v.
@@ -285,10 +285,10 @@ Corollary C20T_cmp128 : forall u v, wf128 u -> wf128 v ->
 Proof. intros. rewrite T_Uint128_Cmp_eq. apply C20_cmp128; assumption. Qed.
 Corollary C20T_cmp128_64 : forall u v, wf128 u -> inW v ->
   T_Uint128_Cmp64 u v = match val128 u ?= v with Lt => -1 | Eq => 0 | Gt => 1 end.
-Proof. intros. rewrite T_Uint128_Cmp64_eq. apply C20_cmp128_64; assumption. Qed.
+Proof. intros. rewrite T_Uint128_Cmp64_eq by assumption. apply C20_cmp128_64; assumption. Qed.
 Theorem C20T_cmp256 : forall u v, wf256 u -> wf256 v ->
-  T_Uint256_Cmp u v = match val256 u ?= val256 v with Lt => -1 | Eq => 0 | Gt => 1 end.
-Proof. intros. rewrite T_Uint256_Cmp_eq. apply C20_cmp256; assumption. Qed.
+  R_Uint256_Cmp u v = Ok (match val256 u ?= val256 v with Lt => -1 | Eq => 0 | Gt => 1 end).
+Proof. intros. rewrite T_Uint256_Cmp_eq. f_equal. apply C20_cmp256; assumption. Qed.
 
 Corollary C20T_and128 : forall u v, wf128 u -> wf128 v -> val128 (T_Uint128_And u v) = Z.land (val128 u) (val128 v).
 Proof. intros. rewrite T_Uint128_And_eq. apply C20_and128; assumption. Qed.
